@@ -1,6 +1,7 @@
 import ChythonModel.Py.Wire
 import ChythonModel.Model.Iso
 import ChythonModel.Model.IsoCheck
+import ChythonModel.Model.IsoCompat
 /-!
 Line-protocol driver for C07. One request per line, all arguments are ints.
 
@@ -8,6 +9,8 @@ Line-protocol driver for C07. One request per line, all arguments are ints.
   CK <graph> <comps> <closures>            → relational check of a compiled query produced by the real code: `ok 1|0`
   GM <af> <scope> <q> <t> <tcomps> <atomOk> <pbonds> <tbonds>
                                            → `Isomorphism._get_mapping`: `ok rec=<0|1> chk=<0|1> n=<k> : m | m | …`
+  GA <af> <scope> <q> <t> <tcomps> <patoms> <tatoms> <pbattr> <tbattr>
+                                           → the same call, compatibility computed by the model from attributes
   AM <graph> <cls…> <pbonds> <tbonds>      → `_get_automorphism_mapping`
   LP <k> (<n> <x…>)*                       → `lazy_product`: tuples in yield order
   PM <r> <n> <x…>                          → `itertools.permutations`
@@ -19,8 +22,14 @@ tcomps := k (size id^size)^k
 atomOk := for each pattern atom in order: cnt id^cnt          (target atoms x with `q_atom == t_atom`)
 pbonds := nb (u v cnt cls^cnt)^nb                              (classes of target bonds the pattern bond equals)
 tbonds := nb (x y cls)^nb
+patoms := for each pattern atom in order:  0 z iso(-1) charge radical                       (molecule atom)
+          | k(1 QueryElement z iso | 2 AnyElement | 3 ListElement n z^n | 4 AnyMetal) charge radical
+            L(neighbors) L(hybridization) L(ring_sizes) L(implicit_hydrogens) L(heteroatoms)   (L = count then items)
+tatoms := for each target atom in order: z iso(-1) charge radical neighbors hybridization L(ring_sizes) implH(-1) heteroatoms
+pbattr := nb (u v 0 order | u v 1 L(orders) in_ring(-1|0|1))^nb
+tbattr := nb (x y order in_ring(0|1))^nb
 -/
-open ChythonModel.Py ChythonModel.Model.Iso
+open ChythonModel.Py ChythonModel.Model.Iso ChythonModel.Model.Query
 
 abbrev P := StateT (List Int) Option
 
@@ -83,6 +92,22 @@ def run (p : P String) (xs : List Int) : String :=
   | some (_, _) => "malformed trailing"
   | none => "malformed"
 
+def solve (p : Problem) : String :=
+  let chk := match compileQuery p.q with
+    | some (comps, cl) => checkCompiled p.q comps cl
+    | none => false
+  let tchk := checkComponents p.t p.tComps
+  -- the same call through the recursive reference enumerator instead of the stack machine
+  let recAgree := match compileQuery p.q with
+    | some (comps, cl) =>
+      comps.all fun lq => p.tComps.all fun cand =>
+        let e := mkEnv p cl lq (restrict p.scope cand)
+        getMapping e == some (recMapping e)
+    | none => false
+  match isoGetMapping p with
+  | none => s!"crash rec={b01 recAgree} chk={b01 chk}"
+  | some r => s!"ok rec={b01 recAgree} chk={b01 chk} tchk={b01 tchk} n={r.length} : {showDicts r}"
+
 def handleGM : P String := do
   let af ← pNat
   let scope ← pScope
@@ -96,22 +121,70 @@ def handleGM : P String := do
   if !(q.WF && t.WF) then return "malformed not-wf"
   let tbl := q.atoms.zip rows
   let atomOk := fun u x => match tbl.lookup u with | some r => r.contains x | none => false
-  let p : Problem := { q := q, t := t, tComps := tComps, scope := scope, autoFilter := af != 0,
-                       atomOk := atomOk, bondOk := mkBondOk pb tb }
-  let chk := match compileQuery q with
-    | some (comps, cl) => checkCompiled q comps cl
-    | none => false
-  let tchk := checkComponents t tComps
-  -- the same call through the recursive reference enumerator instead of the stack machine
-  let recAgree := match compileQuery q with
-    | some (comps, cl) =>
-      comps.all fun lq => tComps.all fun cand =>
-        let e := mkEnv p cl lq (restrict p.scope cand)
-        getMapping e == some (recMapping e)
-    | none => false
-  match isoGetMapping p with
-  | none => return s!"crash rec={b01 recAgree} chk={b01 chk}"
-  | some r => return s!"ok rec={b01 recAgree} chk={b01 chk} tchk={b01 tchk} n={r.length} : {showDicts r}"
+  return solve { q := q, t := t, tComps := tComps, scope := scope, autoFilter := af != 0,
+                 atomOk := atomOk, bondOk := mkBondOk pb tb }
+
+def pOptNat : P (Option Nat) := do let x ← pInt; pure (if x < 0 then none else some x.toNat)
+
+def pPAtom : P PAtom := do
+  let k ← pNat
+  if k == 0 then
+    let z ← pNat; let iso ← pOptNat; let ch ← pInt; let rad ← pNat
+    pure (.mol z iso ch (rad != 0))
+  else
+    let kind ← (match k with
+      | 1 => do let z ← pNat; let iso ← pOptNat; pure (QKind.element z iso)
+      | 2 => pure QKind.any
+      | 3 => do let zs ← pList; pure (QKind.list zs)
+      | 4 => pure QKind.metal
+      | _ => failure : P QKind)
+    let ch ← pInt; let rad ← pNat
+    let nb ← pList; let hy ← pList; let rs ← pList; let ih ← pList; let he ← pList
+    pure (.query { kind := kind, charge := ch, radical := rad != 0, neighbors := nb, hybridization := hy,
+                   ringSizes := rs, implH := ih, heteroatoms := he })
+
+def pMAtom : P MAtom := do
+  let z ← pNat; let iso ← pOptNat; let ch ← pInt; let rad ← pNat; let nb ← pNat; let hy ← pNat
+  let rs ← pList; let h ← pOptNat; let he ← pNat
+  pure { z := z, isotope := iso, charge := ch, radical := rad != 0, neighbors := nb, hybridization := hy,
+         ringSizes := rs, implH := h, heteroatoms := he }
+
+def pPBondAttr : P ((Nat × Nat) × PBond) := do
+  let u ← pNat; let v ← pNat; let k ← pNat
+  if k == 0 then
+    let o ← pNat
+    pure (normPair u v, .mol o)
+  else
+    let os ← pList; let r ← pInt
+    pure (normPair u v, .query { orders := os, inRing := if r < 0 then none else some (r != 0) })
+
+def pTBondAttr : P ((Nat × Nat) × MBond) := do
+  let x ← pNat; let y ← pNat; let o ← pNat; let r ← pNat
+  pure (normPair x y, { order := o, inRing := r != 0 })
+
+def handleGA : P String := do
+  let af ← pNat
+  let scope ← pScope
+  let q ← pGraph
+  let t ← pGraph
+  let k ← pNat
+  let tComps ← pMany k pList
+  let pas ← pMany q.atoms.length pPAtom
+  let tas ← pMany t.atoms.length pMAtom
+  let npb ← pNat
+  let pb ← pMany npb pPBondAttr
+  let ntb ← pNat
+  let tb ← pMany ntb pTBondAttr
+  if !(q.WF && t.WF) then return "malformed not-wf"
+  let ptbl := q.atoms.zip pas
+  let ttbl := t.atoms.zip tas
+  let atomOk := fun u x => match ptbl.lookup u, ttbl.lookup x with
+    | some a, some b => pAtomEq a b
+    | _, _ => false
+  let bondOk := fun u v x y => match pb.lookup (normPair u v), tb.lookup (normPair x y) with
+    | some a, some b => pBondEq a b
+    | _, _ => false
+  return solve { q := q, t := t, tComps := tComps, scope := scope, autoFilter := af != 0, atomOk := atomOk, bondOk := bondOk }
 
 def handleAM : P String := do
   let g ← pGraph
@@ -166,6 +239,7 @@ def handle (line : String) : String :=
           if !g.WF then return "malformed not-wf"
           return s!"ok {b01 (checkCompiled g comps cl)}") xs
       | "GM" => run handleGM xs
+      | "GA" => run handleGA xs
       | "AM" => run handleAM xs
       | "LP" => run handleLP xs
       | "PM" => run handlePM xs
